@@ -8,6 +8,8 @@ from the stop-free state does — same pop, same callbacks in the same order, sa
 records the stop when the processed event carried one.
 -/
 
+set_option linter.unusedSectionVars false
+
 variable {τ σ : Type} [Num τ]
 variable (P : EvId → Bool)
 
